@@ -10,6 +10,8 @@ use crate::progcheck::*;
 use crate::runner::*;
 use crate::worker::{Config, Workers};
 use proptest::prelude::*;
+use proptest::strategy::ValueTree;
+use svproto::*;
 use serde::{Deserialize, Serialize};
 use svmodel::ast::*;
 use svmodel::hist::HistOpts;
@@ -18,6 +20,9 @@ use svmodel::hist::HistOpts;
 pub enum Case02 {
     Prog(c01::ProgCase),
     Hist(c06::HistCase),
+    /// a batch of numeric operator applications in the C10 shapes (purely differential: every
+    /// configuration must give what STEEL_JIT=false with all switches off gives)
+    Arith(Vec<crate::checks::c10::Item>),
 }
 
 pub fn configs(ctx: &Ctx) -> Vec<Config> {
@@ -153,7 +158,54 @@ fn check(ctx: &Ctx, ws: &mut Workers, c: &Case02, counting: bool, cfgs: &[Config
     match c {
         Case02::Prog(p) => check_prog(ctx, ws, p, counting, cfgs),
         Case02::Hist(h) => check_hist(ctx, ws, h, counting, cfgs),
+        Case02::Arith(items) => check_arith(ctx, ws, items, counting, cfgs),
     }
+}
+
+pub fn check_arith(ctx: &Ctx, ws: &mut Workers, items: &[crate::checks::c10::Item], counting: bool, cfgs: &[Config]) -> PropResult {
+    // items one by one, so that an item that raises does not hide the others
+    for it in items {
+        for module in [false, true] {
+            let (case, shown) = crate::checks::c10::make_case(&[(0, it)], module);
+            let mut reference: Option<(String, String)> = None;
+            for cfg in std::iter::once(Config::jit_off()).chain(cfgs.iter().cloned()) {
+                let r = ws.run(&cfg, &case);
+                ctx.stats.engine_runs.fetch_add(1, std::sync::atomic::Ordering::Relaxed);
+                if r.end != End::Done {
+                    continue;
+                }
+                let Some(st) = r.steps.last() else { continue };
+                let obs = match st.outcome {
+                    Outcome::Ok => format!("ok {}", st.values.iter().filter(|v| *v != "#void").cloned().collect::<Vec<_>>().join(" ")),
+                    Outcome::Err => format!("error {}", st.err_kind),
+                    Outcome::Panic => format!("panic {}", st.err_msg),
+                };
+                match &reference {
+                    None => reference = Some((cfg.label(), obs)),
+                    Some((rl, ro)) => {
+                        if *ro != obs {
+                            let jit_on = !cfg.0.iter().any(|(k, v)| k == "STEEL_JIT" && v == "false");
+                            let class = if jit_on { "jitdiv" } else { "cfgdiv" };
+                            let sub = if obs.starts_with("panic") { "panic" } else if obs == "ok " { "lost-result-void" } else if ro.starts_with("error") { "missing-error" } else { "wrong-value" };
+                            return Err(Failure::new(
+                                format!("c02:{}:arith-{}", class, sub),
+                                format!("diverging configuration: {}
+{}
+under {}: {}
+under {}: {}", cfg.label(), shown, rl, ro, cfg.label(), obs),
+                            ));
+                        }
+                    }
+                }
+            }
+        }
+    }
+    if counting {
+        ctx.stats.eval();
+        ctx.stats.class("arithmetic-batch");
+        ctx.stats.nontrivial(&format!("{:?}", items));
+    }
+    Ok(())
 }
 
 pub fn run(ctx: &Ctx, replay: Option<&str>) -> i32 {
@@ -203,7 +255,22 @@ pub fn run(ctx: &Ctx, replay: Option<&str>) -> i32 {
             let avoid = avoid.clone();
             (any::<bool>(), any::<bool>(), any::<bool>(), prop::collection::vec(any::<u16>(), 0..600)).prop_map(move |(a, b, c, d)| {
                 // one case in eight is a history
-                if a && b && c {
+                if a && b && !c {
+                    // one case in eight is a batch of numeric operator applications
+                    let mut runner = proptest::test_runner::TestRunner::new_with_rng(
+                        proptest::test_runner::Config::default(),
+                        proptest::test_runner::TestRng::from_seed(proptest::test_runner::RngAlgorithm::ChaCha, &{
+                            let mut sd = [0u8; 32];
+                            for (i, x) in d.iter().take(16).enumerate() {
+                                sd[2 * i] = (*x & 0xff) as u8;
+                                sd[2 * i + 1] = (*x >> 8) as u8;
+                            }
+                            sd
+                        }),
+                    );
+                    let items: Vec<crate::checks::c10::Item> = (0..6).filter_map(|_| crate::checks::c10::item().new_tree(&mut runner).ok().map(|t| t.current())).collect();
+                    Case02::Arith(items)
+                } else if a && b && c {
                     Case02::Hist(c06::case_from_choices(&d, &HistOpts { avoid: c06::avoid(), max_ops: 25, fail_weight: 2, bulk: false }))
                 } else {
                     Case02::Prog(c01::case_from_choices(&d, c01::opts(avoid.clone())))
